@@ -727,6 +727,10 @@ class Decompiler(object):
         return clause
 
     def conditional_jump_new(decompiler, endpos, if_true):
+        if endpos == decompiler.next_pos:
+            # the compiler has folded a constant operand away (`x or 2`): what is left is a jump
+            # to the next instruction, from which the condition cannot be reconstructed
+            throw(DecompileError('Constant in a condition is not supported, try to pass query as string'))
         expr = decompiler.stack.pop()
         if decompiler.pos >= decompiler.conditions_end or decompiler.is_value_jump(decompiler.pos):
             clausetype = ast.Or if if_true else ast.And
